@@ -471,7 +471,8 @@ impl Serializable for Instruction {
 
             // ----- debug decorators -------------------------------------------------------------
             Self::Breakpoint => {
-                // this is a transparent instruction and will not be encoded into the library
+                // the instruction is counted as a node of its body, so it must be encoded
+                OpCode::Breakpoint.write_into(target);
             }
 
             Self::Debug(options) => {
